@@ -2009,7 +2009,9 @@ package ast
 //@ macro func nodeOK(n Ref, m Ref) bool { return n != nil && allocated(n) && (typeof(m) == typeid(*ArgumentListMeta) ==> typeof(n) == typeid(*ArgumentList) && as(n, *ArgumentList).AstID == as(m, *ArgumentListMeta).AstID && as(n, *ArgumentList).GrlText == as(m, *ArgumentListMeta).GrlText)
 //@      && (typeof(m) == typeid(*ArrayMapSelectorMeta) ==> typeof(n) == typeid(*ArrayMapSelector) && as(n, *ArrayMapSelector).AstID == as(m, *ArrayMapSelectorMeta).AstID && as(n, *ArrayMapSelector).GrlText == as(m, *ArrayMapSelectorMeta).GrlText)
 //@      && (typeof(m) == typeid(*AssigmentMeta) ==> typeof(n) == typeid(*Assignment) && as(n, *Assignment).AstID == as(m, *AssigmentMeta).AstID && as(n, *Assignment).GrlText == as(m, *AssigmentMeta).GrlText && as(n, *Assignment).IsAssign == as(m, *AssigmentMeta).IsAssign && as(n, *Assignment).IsPlusAssign == as(m, *AssigmentMeta).IsPlusAssign && as(n, *Assignment).IsMinusAssign == as(m, *AssigmentMeta).IsMinusAssign && as(n, *Assignment).IsDivAssign == as(m, *AssigmentMeta).IsDivAssign && as(n, *Assignment).IsMulAssign == as(m, *AssigmentMeta).IsMulAssign)
-//@      && (typeof(m) == typeid(*ConstantMeta) ==> typeof(n) == typeid(*Constant) && as(n, *Constant).AstID == as(m, *ConstantMeta).AstID && as(n, *Constant).GrlText == as(m, *ConstantMeta).GrlText && as(n, *Constant).Snapshot == as(m, *ConstantMeta).Snapshot && as(n, *Constant).IsNil == as(m, *ConstantMeta).IsNil)
+//@      && (typeof(m) == typeid(*ConstantMeta) ==> typeof(n) == typeid(*Constant) && as(n, *Constant).AstID == as(m, *ConstantMeta).AstID && as(n, *Constant).GrlText == as(m, *ConstantMeta).GrlText && as(n, *Constant).Snapshot == as(m, *ConstantMeta).Snapshot && as(n, *Constant).IsNil == as(m, *ConstantMeta).IsNil
+//@          && (as(m, *ConstantMeta).ValueType == TypeString ==> as(n, *Constant).Value.kind == 24) && (as(m, *ConstantMeta).ValueType == TypeBoolean ==> as(n, *Constant).Value.kind == 1)
+//@          && (as(m, *ConstantMeta).ValueType == TypeInteger ==> as(n, *Constant).Value.kind == 6) && (as(m, *ConstantMeta).ValueType == TypeFloat ==> as(n, *Constant).Value.kind == 14))
 //@      && (typeof(m) == typeid(*ExpressionMeta) ==> typeof(n) == typeid(*Expression) && as(n, *Expression).AstID == as(m, *ExpressionMeta).AstID && as(n, *Expression).GrlText == as(m, *ExpressionMeta).GrlText && as(n, *Expression).Operator == as(m, *ExpressionMeta).Operator && as(n, *Expression).Negated == as(m, *ExpressionMeta).Negated)
 //@      && (typeof(m) == typeid(*ExpressionAtomMeta) ==> typeof(n) == typeid(*ExpressionAtom) && as(n, *ExpressionAtom).AstID == as(m, *ExpressionAtomMeta).AstID && as(n, *ExpressionAtom).GrlText == as(m, *ExpressionAtomMeta).GrlText && as(n, *ExpressionAtom).VariableName == as(m, *ExpressionAtomMeta).VariableName && as(n, *ExpressionAtom).Negated == as(m, *ExpressionAtomMeta).Negated)
 //@      && (typeof(m) == typeid(*FunctionCallMeta) ==> typeof(n) == typeid(*FunctionCall) && as(n, *FunctionCall).AstID == as(m, *FunctionCallMeta).AstID && as(n, *FunctionCall).GrlText == as(m, *FunctionCallMeta).GrlText && as(n, *FunctionCall).FunctionName == as(m, *FunctionCallMeta).FunctionName)
